@@ -1,13 +1,20 @@
 #!/bin/sh
-# usage: tools/try_mutant.sh <patch.diff> <Cxx> [tier]   -- applies to /repo, runs the check, restores /repo and the evidence file
+# usage: tools/try_mutant.sh <patch.diff> <Cxx> [tier]
+# Applies the patch to a checkout (FLOWCAL_REPO, default: the scratch worktree /tmp/wt_mut, created on demand;
+# never /repo itself unless FLOWCAL_REPO=/repo), runs the check against it, restores the checkout and the evidence file.
 P=$(readlink -f "$1"); shift
 PID=$1; TIER=${2:-quick}
-[ -z "$(git -C /repo status --porcelain --untracked-files=no)" ] || { echo "/repo not clean"; exit 3; }
+R=${FLOWCAL_REPO:-/tmp/wt_mut}
+[ -d "$R" ] || git -C /repo worktree add -q --detach "$R" HEAD || exit 3
+git -C "$R" checkout -q --detach $(git -C /repo rev-parse HEAD) 2>/dev/null
+[ -z "$(git -C $R status --porcelain --untracked-files=no)" ] || { echo "$R not clean"; exit 3; }
 cd /verif
 cp evidence/$PID.json /tmp/evidence_$PID.bak 2>/dev/null
-git -C /repo apply "$P" || exit 3
-./check $PID --tier $TIER > /tmp/try_$PID.log 2>&1; rc=$?
-git -C /repo checkout -- .
+git -C "$R" apply "$P" || exit 3
+FLOWCAL_REPO=$R ./check $PID --tier $TIER > /tmp/try_$PID.log 2>&1; rc=$?
+git -C "$R" checkout -- .
 cp /tmp/evidence_$PID.bak evidence/$PID.json 2>/dev/null
-grep -E "VIOLATION|KNOWN-FINDING|NOTE" /tmp/try_$PID.log | head -4
+# regenerate the source facts for the real repository
+/venv/bin/python extract/facts.py
+grep -E "VIOLATION|NOTE" /tmp/try_$PID.log | head -4
 echo "exit=$rc"
